@@ -5,7 +5,9 @@
    modelled: these are statements about the formulas the code evaluates in binary64; the gap is
    measured on every case by the correspondence run. *)
 From Coq Require Import Reals.
-From EsVerif.C12 Require Import SepModel SepCert GenR SepProofs.
+From Coq Require Import ZArith List.
+Import ListNotations.
+From EsVerif.C12 Require Import Model Proofs SepModel SepCert GenR SepProofs SepCover.
 Open Scope R_scope.
 
 (* The reported separation: the formula of gcirc IS the true separation, for all inputs
@@ -43,6 +45,23 @@ Theorem C12_points_within_radius_lie_in_searched_cap : forall r ra1 dec1 ra2 dec
   /\ (r < 180 -> src_cover_cosine r < dot (point (rad ra1) (rad dec1)) (point (rad ra2) (rad dec2))).
 Proof. exact within_radius_in_cap. Qed.
 
+(* ... formally: from a geometric contract of the JHU library -- lookupID returns a triangle that
+   contains the point; SpatialDomain::intersect lists every triangle containing a point of the cap
+   the source hands to it -- and exact distances, the completeness half of H_cover follows for every
+   first-set point.  (The other half, duplicate-free id lists, and the contract itself stay monitored.) *)
+Theorem C12_H_cover_from_library_contract :
+  forall (n1 n2 : nat) (ra1 dec1 ra2 dec2 radR : nat -> R) (dis : nat -> nat -> Z) (radZ : nat -> Z)
+         (tri : nat -> Z) (cover : nat -> list Z) (inside : R -> R -> Z -> Prop),
+  (forall j, (j < n2)%nat -> inside (ra2 j) (dec2 j) (tri j)) ->
+  (forall i, (i < n1)%nat -> forall ra dec id,
+     src_cover_cosine (radR i) <= dot (point (rad (ra1 i)) (rad (dec1 i))) (point (rad ra) (rad dec)) ->
+     inside ra dec id -> In id (cover i)) ->
+  (forall i j, (i < n1)%nat -> (j < n2)%nat -> (dis i j <= radZ i)%Z ->
+     true_sep (ra1 i) (dec1 i) (ra2 j) (dec2 j) <= radR i) ->
+  (forall i, (i < n1)%nat -> 0 <= radR i <= 180) ->
+  forall i, (i < n1)%nat -> cover_complete tri n2 dis cover i (radZ i).
+Proof. exact cover_complete_from_library. Qed.
+
 (* Soundness of the per-case certificates (closed by Interval in generated files): bounds on the
    haversine give bounds on the true separation. *)
 Theorem C12_separation_certificate_sound : forall ra1 dec1 ra2 dec2 lo hi,
@@ -59,4 +78,16 @@ Proof.
   rewrite cos_0, sin_0, cos_PI2, sin_PI2.
   replace (1 * 1 * (1 * 0) + 1 * 0 * (1 * 1) + 0 * 0) with 0 by ring.
   rewrite acos_0. field. apply PI_neq0.
+Qed.
+
+(* Non-vacuity of the library contract: one triangle (id 7) holding everything. *)
+Example C12_library_contract_nonvacuous :
+  let inside := fun (_ _ : R) (id : Z) => id = 7%Z in
+  (forall j, (j < 3)%nat -> inside 0 0 ((fun _ => 7%Z) j))
+  /\ (forall i, (i < 2)%nat -> forall ra dec id, inside ra dec id -> In id ((fun _ => [7%Z]) i))
+  /\ (forall i j, true_sep (INR i) 0 (INR j) 1 <= 180)
+  /\ cover_complete (fun _ => 7%Z) 3 (fun _ _ => 0%Z) (fun _ => [7%Z]) 0 5.
+Proof.
+  cbv zeta. split; [reflexivity|]. split; [intros i _ ra dec id E; left; symmetry; exact E|].
+  split; [intros; apply true_sep_range|]. intros j _ _. left. reflexivity.
 Qed.
